@@ -182,8 +182,10 @@ func GenSchema(r *vh.Rng) *SchemaSpec {
 			return TRef{K: "list", Elem: &TRef{K: "list", Elem: &e}}
 		case k < 92:
 			return TRef{K: "union", Name: UnionNames[r.Intn(2)]}
-		case k < 97:
+		case k < 96:
 			return TRef{K: "list", Elem: &TRef{K: "union", Name: UnionNames[r.Intn(2)]}}
+		case k < 99:
+			return TRef{K: "list", Elem: &TRef{K: "enum"}}
 		default:
 			return TRef{K: "list", Elem: &TRef{K: "str"}}
 		}
@@ -562,7 +564,7 @@ func (b *Built) outcome(o *Obj, key string, t TRef) (reflect.Value, error) {
 		// a user-defined SanitizedError whose public text differs from its Error() text
 		return reflect.Value{}, CustomErr{Detail: "detail of " + oc.Msg, Public: "public " + oc.Msg}
 	case "panic":
-		panic(oc.Msg)
+		panic(PanicMark + oc.Msg)
 	}
 	panic("outcome kind " + oc.Fail)
 }
